@@ -346,3 +346,32 @@ Proof.
   destruct (run_calls P R1 calls) as [R2 Ls]. destruct HV as (A & B & C & D). split; auto.
   intros c'. apply (fetch_live_imm P v u HK HR c' R2); auto. apply newest1_newest. exact B.
 Qed.
+
+(* ------------------------------------------------------------------------------------------------ *)
+(* several keys: a key-indexed store                                                                  *)
+
+(* One entry (and the clients working on it) per key.  A step is tagged with the key of the call it belongs to and acts on
+   that key's component only: this independence is what the generated fact [f_entry_is_whole_key] (the entry directory is
+   <root>/<whole key>) gives for keys none of which is a path prefix of another. *)
+Definition kstate := nat -> state.
+Definition kinit (P : params) (ops : nat -> list opk) : kstate := fun k => init_state P (ops k).
+Definition kstep (P : params) (ks : kstate) (kl : nat * label) : kstate :=
+  fun k => if Nat.eqb k (fst kl) then gstep P (ks k) (snd kl) else ks k.
+Definition krun (P : params) (ks : kstate) (sched : list (nat * label)) : kstate := fold_left (kstep P) sched ks.
+
+Lemma krun_proj : forall P sched ks k,
+  krun P ks sched k = run P (ks k) (map snd (filter (fun kl => Nat.eqb k (fst kl)) sched)).
+Proof.
+  intros P sched. induction sched as [|kl r IH]; intros ks k; simpl; auto.
+  change (krun P ks (kl :: r) k) with (krun P (kstep P ks kl) r k). rewrite IH. unfold kstep.
+  destruct (Nat.eqb k (fst kl)); simpl; reflexivity.
+Qed.
+
+Lemma fetch_installs_stored_version_keyed_l : forall P (ops : nat -> list opk) (sched : list (nat * label)),
+  (forall d, p_unzip_other P d = None) ->
+  forall k, let st := krun P (kinit P ops) sched k in
+  forall n L, nth_error (s_cl st) n = Some L -> fetch_ok L = true ->
+  exists v, c_dest L = DInst v /\ In v (stored (s_cl st)).
+Proof.
+  intros P ops sched Hz k. rewrite krun_proj. unfold kinit. apply fetch_installs_stored_version_l. exact Hz.
+Qed.
